@@ -15,7 +15,8 @@ pub const FLOORS: &[&str] = &[
     "reset_after_execution", "reset_after_move_reg", "reset_after_move_mem", "reset_after_goto",
     "reset_after_eval_store", "reset_after_program_store", "reset_twice", "reset_then_full_run",
     "store_into_code", "store_into_stack_area", "memory_dirty_before_reset", "output:minimal", "output:decorated",
-    "assembly_after_store_into_code",
+    "assembly_after_store_into_code", "resumed_under_debugger_after_reset", "reset_while_paused_on_breakpoint",
+    "resume_after_reset_compared_with_fresh_session",
 ];
 
 const FUEL: u64 = 15_000;
@@ -73,7 +74,18 @@ fn one_case(seed: u64, i: u64) -> CaseOut {
     // ---- history
     let mut lines: Vec<String> = Vec::new();
     let mut tags: Vec<&'static str> = Vec::new();
-    for _ in 0..1 + rng.below(9) {
+    // breakpoint commands of the history: a fresh session gets the same ones before it is compared
+    let mut bp_lines: Vec<String> = Vec::new();
+    let paused_on_breakpoint_history = rng.chance(1, 5);
+    if paused_on_breakpoint_history {
+        // pause on a run-time breakpoint early in the program, reset right there
+        let l = format!("break add x{:04x}", orig.wrapping_add(1 + rng.below(3) as u16));
+        bp_lines.push(l.clone());
+        lines.push(l);
+        lines.push("continue".into());
+        tags.push("reset_while_paused_on_breakpoint");
+    }
+    for _ in 0..(if paused_on_breakpoint_history { 0 } else { 1 + rng.below(9) }) {
         match rng.below(12) {
             0 | 1 => {
                 lines.push(rng.s(&["step", "si 3", "si 10", "continue", "si 50", "so"]).to_string());
@@ -155,7 +167,21 @@ fn one_case(seed: u64, i: u64) -> CaseOut {
         }
     }
     let full_run = rng.chance(2, 3);
+    let mut resume_cmd: Option<String> = None;
     if full_run {
+        // resume in different ways before detaching: with the debugger still attached for a while
+        // (continue / step / step into k), or at once; every way ends like a fresh run
+        let resume = match rng.below(5) {
+            0 => Some("continue".to_string()),
+            1 => Some(format!("si {}", 1 + rng.below(6))),
+            2 => Some("step".to_string()),
+            _ => None,
+        };
+        if let Some(r) = &resume {
+            lines.push(r.clone());
+            tags.push("resumed_under_debugger_after_reset");
+        }
+        resume_cmd = resume;
         lines.push("quit".into());
     } else {
         lines.push("exit".into());
@@ -306,6 +332,50 @@ fn one_case(seed: u64, i: u64) -> CaseOut {
                 }
                 if let Some(w) = why {
                     out.violate("C12/run-after-reset", i, format!("`...; reset; quit`: {}", w), detail(""));
+                    return out;
+                }
+            }
+        }
+    }
+    // ---- the pause reached by resuming after the reset is the pause a fresh session reaches
+    if let (Some(r), false) = (&resume_cmd, cfg!(miri)) {
+        let mut fl = bp_lines.clone();
+        fl.push(r.clone());
+        fl.push("quit".into());
+        let fscript = fl.join("\n");
+        let t = text.clone();
+        let fresh = std::thread::scope(|sc| {
+            std::thread::Builder::new()
+                .stack_size(8 << 20)
+                .spawn_scoped(sc, || {
+                    crate::exec::case_minimal(minimal);
+                    run_session(&t, stack, &fscript, &[], 6 * FUEL, false).ok()
+                })
+                .ok()?
+                .join()
+                .ok()?
+        });
+        let last_reset = *reset_lines.last().unwrap();
+        let after_resume = sess.snaps.iter().find(|s| s.commands_read == last_reset + 2);
+        let at_reset = sess.snaps.iter().find(|s| s.commands_read == last_reset + 1);
+        if let (Some(f), Some(a), Some(z)) = (fresh, after_resume, at_reset) {
+            if let Some(fa) = f.snaps.iter().find(|s| s.commands_read == bp_lines.len() + 1) {
+                out.class("resume_after_reset_compared_with_fresh_session");
+                let mut why = None;
+                if a.pc != fa.pc || a.reg != fa.reg || a.cc != fa.cc {
+                    why = Some(format!(
+                        "paused with PC x{:04X} registers {:04X?} CC {:03b}; a fresh session pauses with PC x{:04X} registers {:04X?} CC {:03b}",
+                        a.pc, a.reg, a.cc, fa.pc, fa.reg, fa.cc
+                    ));
+                } else if a.fetches - z.fetches != fa.fetches {
+                    why = Some(format!("{} instructions executed, a fresh session executes {}", a.fetches - z.fetches, fa.fetches));
+                } else if a.mem_diff != fa.mem_diff {
+                    why = Some("memory differs from a fresh session's at the same pause".to_string());
+                } else if sess.obs.out_normal[z.out_len..a.out_len] != f.obs.out_normal[..fa.out_len] {
+                    why = Some("program output differs from a fresh session's at the same pause".to_string());
+                }
+                if let Some(w) = why {
+                    out.violate("C12/resume-after-reset", i, format!("`...; reset; {}`: {}", r, w), detail(""));
                     return out;
                 }
             }
